@@ -9,6 +9,7 @@ import JubakoModel.Lemmas.Codec
 import JubakoModel.Lemmas.Mask
 import JubakoModel.Lemmas.FuncsCheck
 import JubakoModel.Lemmas.FuncsLookup
+import JubakoModel.Lemmas.FuncsParse
 
 set_option maxRecDepth 8000
 
@@ -201,5 +202,35 @@ theorem c04_container_check_is_source_check :
 /-- non-vacuity: an unlocated pack listed before a pack that does not verify — the verdict is `false` -/
 example : Generated.containerCheck true true [none, some false, some true] = some false ∧
           Generated.containerCheck true true [none, some true] = some true := by decide
+
+/-- **The check block and the verdict are the source's**: `CheckInfo::parse` (with `CheckKind::parse`) and
+    `CheckInfo::check` (`common/check.rs`), translated on every run: the stored hash is the 32 bytes after a
+    kind byte 1, absent after a kind byte 0, anything else is a format error — as `CheckInfo.decode` has it, on
+    every byte string; and the verdict is "no hash stored, or the hash of the stream equals the stored hash" —
+    the last step of `packCheck`. -/
+theorem c04_check_block_is_source_check_block :
+    (∀ bs, (Generated.checkInfoParse bs).map' (·.1) = (CheckInfo.decode bs).map' CheckInfo.toSrc) ∧
+    (∀ (ci : CheckInfo) (streamHash : Bytes),
+      (match ci with | CheckInfo.none => true | CheckInfo.blake3 stored => streamHash == stored) =
+        Generated.checkInfoCheck ci.toSrc streamHash) := by
+  refine ⟨gen_checkInfoParse, ?_⟩
+  intro ci h
+  cases ci with
+  | none => rfl
+  | blake3 stored =>
+    simp only [Generated.checkInfoCheck, CheckInfo.toSrc]
+    by_cases he : h = stored <;> simp [he]
+
+/-- **Where the check block is looked for is where the source looks**: `PackHeader::check_info_size`
+    translated on every run is the size `packCheckParts` reads at `checkInfoPos` — whenever the subtraction does
+    not underflow (the model answers "panic" otherwise, as the u64 arithmetic of a debug build does). -/
+theorem c04_check_block_size_is_source_size (h : PackHeader) (n : Nat) (hn : h.checkInfoSize = some n) :
+    Generated.packHeaderCheckInfoSize h.packSize h.checkInfoPos 64 = n := by
+  unfold PackHeader.checkInfoSize at hn
+  split at hn
+  · simp only [Option.some.injEq] at hn
+    subst hn
+    simp [Generated.packHeaderCheckInfoSize, Generated.blockCheckSize]
+  · simp at hn
 
 end Jubako
